@@ -40,7 +40,7 @@ type shape struct {
 }
 
 // routes exercised for every shape
-var routes = []string{"stored-type", "replay-eventtype", "subscribe-with-replay", "subscribe-with-replay-live", "upcast-source", "upcast-target"}
+var routes = []string{"stored-type", "replay-eventtype", "subscribe-with-replay", "subscribe-with-replay-live", "upcast-source", "upcast-target", "eventtype-rule"}
 
 var bg = context.Background()
 
@@ -63,6 +63,19 @@ func mk[T any](name string, sample T, n func(T) int, setN func(int) T) shape {
 		want := eventbus.EventType(sample)
 		eventbus.Publish(bus, setN(1))
 		switch route {
+		case "eventtype-rule":
+			// EventType itself against the documented rule, worked out here and not by the
+			// code under test: the custom name if the value's method set has EventTypeName,
+			// else the reflect name of its type. Asked twice, and after the other form (T /
+			// *T) of the same type has been asked about, since a per-type memo must not mix
+			// the two.
+			ref := reflect.TypeOf(sample).String()
+			if nm, ok := any(sample).(interface{ EventTypeName() string }); ok {
+				ref = nm.EventTypeName()
+			}
+			if want != ref || eventbus.EventType(sample) != ref {
+				bad("EventType reports %q, the documented rule gives %q", want, ref)
+			}
 		case "stored-type":
 			if st := storedTypes(ms); len(st) != 1 || st[0] != want {
 				bad("stored type %v, EventType reports %q", st, want)
